@@ -268,6 +268,6 @@ CHECKS["C19"] = {
     "rule": "case = list of thread programs (kind, inputs, delay pattern). Non-trivial = at least two threads executed the same library path concurrently (copy||copy, read||read, ...); distinct by choice-sequence hash.",
     "assumptions": ["ThreadSanitizer's happens-before model (pthread create/join/barrier) is sound for the executed accesses"],
     "runs": [
-        {"bin": "tsan/C19", "cases": P(250, 6000), "procs": P(8, 16), "size": 70, "shrink_budget": 40, "cpu_limit": 120},
+        {"bin": "tsan/C19", "cases": P(700, 8000), "procs": P(8, 16), "size": 70, "shrink_budget": 40, "cpu_limit": 120},
     ],
 }
